@@ -458,7 +458,7 @@ fn is_decl(n: &Node) -> bool {
     matches!(n, Node::Atom(a) if a.idents.iter().any(|i| i.role == Role::Decl))
 }
 
-fn has_bare_declaration(nodes: &[Node]) -> bool {
+pub fn has_bare_declaration(nodes: &[Node]) -> bool {
     fn body(b: &Body) -> bool {
         match b {
             Body::Bare(n) => is_decl(n) || has_bare_declaration(std::slice::from_ref(n.as_ref())),
